@@ -277,7 +277,9 @@ Fixpoint wreads (sh : bool) (e : wexpr) : list name :=
 Inductive xstmt :=
 | XCore (s : stmt)
 | XCall (args : list expr)
-| XWop (x : name) (ranged : bool) (e : wexpr).
+| XWop (x : name) (ranged : bool) (e : wexpr)
+| XWhile (c : expr) (body : list stmt).      (* DO WHILE: WhileLoop.reference_accesses = condition, then body
+                                                (while_loop.py:144-157); semantics by bounded unrolling in the harness *)
 
 Definition call_arg (sh : bool) (e : expr) : list acc :=
   match e with
@@ -290,6 +292,7 @@ Definition xaccs (sh : bool) (xs : list xstmt) : list acc :=
                      | XCore s => saccs sh s
                      | XCall args => flat_map (call_arg sh) args
                      | XWop x _ e => rdl (wreads sh e) ++ [(x, WRITE)]
+                     | XWhile c body => rdl (ereads_s sh c) ++ flat_map (saccs sh) body
                      end) xs.
 Definition core_of (xs : list xstmt) : list stmt :=
   flat_map (fun x => match x with XCore s => [s] | _ => [] end) xs.
@@ -299,7 +302,8 @@ Definition has_call (xs : list xstmt) : bool :=
 (* the implementation answers (does not raise NotImplementedError) *)
 Definition xs_ok (sh : bool) (xs : list xstmt) : bool :=
   accs_ok sh (core_of xs) &&
-  forallb (fun x => match x with XWop _ ranged _ => negb (ranged && sh) | _ => true end) xs.
+  forallb (fun x => match x with XWop _ ranged _ => negb (ranged && sh) | XWhile _ body => accs_ok sh body
+                             | _ => true end) xs.
 
 Definition xio_agrees (c : list xstmt * bool * list name * list name) : bool :=
   match c with (xs, sh, ins, outs) =>
